@@ -32,6 +32,9 @@ type C14Plan struct {
 	// Fill: one subscriber that sees everything does not read until exactly as many matching records were written as
 	// its feed holds (the last of them finds one free place: the buffer is not full), then reads on
 	Fill bool `json:"fill,omitempty"`
+	// Cold: nothing has used the database before; its first uses (the first Subscribe / RegisterHook and a read by
+	// another goroutine) happen at the same moment
+	Cold bool `json:"cold,omitempty"`
 }
 
 // SubSpec describes one subscription.
@@ -167,6 +170,7 @@ func genC14(rng *rand.Rand, tier string) *C14Plan {
 		p.Hooks = append(p.Hooks, h)
 	}
 	p.ShutFirst = rng.IntN(6) == 0
+	p.Cold = !p.RegLate && rng.IntN(4) == 0
 	nw := 1 + rng.IntN(3)
 	if hookActions {
 		nw = 1
@@ -382,7 +386,17 @@ func execC14(p *C14Plan, rc *simkit.RunCtx) {
 	}
 	priv := database.NewInterface(&database.Options{Local: true, Internal: true})
 	// make sure the controller exists before subscribing
-	_, _ = priv.Get(dbName + ":warmup")
+	if p.Cold {
+		coldDone := make(chan struct{})
+		go func() {
+			defer close(coldDone)
+			_, _ = priv.Get(dbName + ":warmup")
+		}()
+		defer func() { <-coldDone }()
+		rc.Probe("first-uses-of-the-database-at-the-same-moment")
+	} else {
+		_, _ = priv.Get(dbName + ":warmup")
+	}
 	var queries []*query.Query
 	for i, sp := range p.Subs {
 		var q *query.Query
